@@ -5,7 +5,7 @@ use crate::explore::Report;
 use crate::Args;
 
 pub fn names() -> Vec<&'static str> {
-    vec!["keys", "reuse"]
+    vec!["keys", "reuse", "modes", "batch", "removal", "disable"]
 }
 
 pub fn dispatch(args: &Args) -> Option<Report> {
